@@ -463,7 +463,7 @@ fn starts(ctx: &Ctx, rng: &mut Rng) -> Vec<Start> {
     }
     // (c) random CNFs up to 10 variables
     for k in 0..ctx.count {
-        let n = 2 + rng.below(if quick { 6 } else { 9 }) as u32;
+        let n = 2 + rng.below(if quick { 8 } else { 9 }) as u32;
         let m = rng.below(2 * n as u64 + 1) as usize;
         let maxw = 1 + rng.below(4) as usize;
         let extra = if rng.chance(1, 4) { 1 } else { 0 };
